@@ -93,7 +93,11 @@ type ChanObj struct {
 }
 
 // reflectVal is what the stub for internal/reflectlite.ValueOf returns.
-type reflectVal struct{ v Value }
+type reflectVal struct {
+	v    Value
+	typ  types.Type // nil: the invalid (zero) reflect.Value
+	addr *Slot      // non-nil when the value is addressable (obtained through Elem of a pointer)
+}
 
 func under(t types.Type) types.Type { return t.Underlying() }
 
